@@ -70,6 +70,12 @@ func TakeSnap(n *node.Node, txs [][]byte, addrs []string, withDB bool) *Snap {
 			s.Errors = append(s.Errors, fmt.Sprintf("last header height %d != chain height %d", hdr.Height, s.Height))
 		}
 	}
+	// nothing is indexed above the tip (a node that only ever saw the best branch has no such record)
+	for h := s.Height + 1; h <= s.Height+8; h++ {
+		if hash, err := bs.GetBlockHashByHeight(h); err == nil {
+			s.Errors = append(s.Errors, fmt.Sprintf("height %d above the tip %d is still indexed (hash %x)", h, s.Height, hash))
+		}
+	}
 	for h := int64(0); h <= s.Height; h++ {
 		hash, err := bs.GetBlockHashByHeight(h)
 		if err != nil {
